@@ -694,6 +694,8 @@ structure Layer where
   declMax : Bool := false
   declLimits : Bool := false
   ownCheck : Bool := false
+  ro : Option Bool := none       -- the class body gives `<p>` a `readonly` property (the class declaring `<p>` always does; a
+                                 -- subclass may override it: `<p> = Parameter(readonly=…)`)
   deriving Repr, DecidableEq, Inhabited
 
 structure LCfg where
@@ -702,7 +704,21 @@ structure LCfg where
   layers : List Layer            -- the classes of the module class in MRO order (most derived first)
   hasW : Bool                    -- the programmer wrote write_<p>
   omitUnch : Bool := false       -- `omit_unchanged_within`: 0 (false) or longer than the whole history (true)
+  roCfg : Option Bool := none    -- the configuration of the module sets `readonly` of `<p>` (`{'readonly': False}` makes a
+                                 -- parameter declared readonly in the class writable for clients)
   deriving Repr, DecidableEq
+
+/-- `readonly` of `<p>` as the class hierarchy leaves it: the most derived class that sets the property wins -/
+def classReadonly : List Layer → Bool
+  | [] => false
+  | l :: rest => match l.ro with
+    | some b => b
+    | none => classReadonly rest
+
+/-- `readonly` of `<p>` on the module object: what the dispatcher consults before a `change` request reaches `write_<p>`.
+The write wrapper itself (check methods included) exists whatever this says: "the configuration may turn a readonly parameter
+into a writable one, and a readonly parameter may still be internally writable" (modulebase.py:182) -/
+def LCfg.readonly (cfg : LCfg) : Bool := cfg.roCfg.getD (classReadonly cfg.layers)
 
 /-- `<p>_min in accessibles`: some class of the hierarchy declares it -/
 def LCfg.hasMin (cfg : LCfg) : Bool := cfg.layers.any (·.declMin)
@@ -790,7 +806,8 @@ def runChecks (lim : Bool) (c : List CRes) : List Layer → Nat → ChkRes
     else runChecks lim c rest (i + 1)
 
 inductive LOp
-  | write (x : Val) (c : List CRes) (w : WRes Val)       -- change <p> / write_<p>(x); `c`: what the check methods do
+  | write (x : Val) (c : List CRes) (w : WRes Val) (client : Bool := true)
+      -- `change <p>` of a client (`client`) / a call of `write_<p>(x)` inside the driver; `c`: what the check methods do
   | writeMin (x : Val)
   | writeMax (x : Val)
   | writeLimits (a b : Val)
@@ -804,8 +821,9 @@ inductive LOp
 def validLimits (cfg : LCfg) (a b : Val) : Bool := inRange cfg a && inRange cfg b && decide (a ≤ b)
 
 def lstep (cfg : LCfg) (s : LSt) : LOp → LSt
-  | .write x c w =>
-    if !inRange cfg x then lfail s
+  | .write x c w client =>
+    if client && cfg.readonly then lfail s         -- `ReadOnlyError` of the dispatcher: `write_<p>` is not called
+    else if !inRange cfg x then lfail s
     else if !(runChecks (checkLimits cfg s x) c cfg.layers 0).ok then
       { s with ok := false, exc := (runChecks (checkLimits cfg s x) c cfg.layers 0).exc }
     else if cfg.hasW then
